@@ -317,6 +317,7 @@ def dense_reference(om, de, ph, Ufun, times, xy, psi0=None):
     occ = [[(psi.conj() @ N[j] @ psi).real for j in range(n)]]
     en = [(psi.conj() @ H(0) @ psi).real]
     cm, ev2 = [corr(psi)], [var(psi, H(0))]
+    pr = [np.abs(psi) ** 2]
     for k in range(ns):
         h = H(k)
         psi = sla.expm(-1j * h * (times[k + 1] - times[k]) * 1e-3) @ psi
@@ -324,10 +325,11 @@ def dense_reference(om, de, ph, Ufun, times, xy, psi0=None):
         en.append((psi.conj() @ h @ psi).real)
         cm.append(corr(psi))
         ev2.append(var(psi, h))
-    return np.array(occ), np.array(en), np.array(cm), np.array(ev2)
+        pr.append(np.abs(psi) ** 2)
+    return np.array(occ), np.array(en), np.array(cm), np.array(ev2), np.array(pr)
 
 
-def gen_dense(rng, nmax, force_cycle=False, force_mixed=False, force_slm=False):
+def gen_dense(rng, nmax, force_cycle=False, force_mixed=False, force_slm=False, force_ryd=False):
     n = 5 if force_cycle else rng.randint(2, nmax)
     dt = rng.choice([10.0, 5.0, 4.0])
     ns = rng.randint(8, 16)
@@ -335,7 +337,7 @@ def gen_dense(rng, nmax, force_cycle=False, force_mixed=False, force_slm=False):
     x = gen_register(rng, n, shuffled=False)     # register order = chain order (see dense_check)
     relabel = list(range(n))
     rng.shuffle(relabel)                          # second leg: atom i sits at chain position relabel[i]
-    xy = rng.random() < 0.3
+    xy = rng.random() < 0.3 and not force_ryd
     if force_cycle:                               # 5 atoms, a 4-cycle: the chain order and its reversal are not self-inverse
         relabel, xy = [1, 2, 3, 0, 4], False
     U = interaction(x, xy)
@@ -366,14 +368,16 @@ def gen_dense(rng, nmax, force_cycle=False, force_mixed=False, force_slm=False):
         raw = [rng.choice([1, 2, 3]) * rng.choice([1, -1, 1j]) for _ in strs]
         nrm = math.sqrt(sum(abs(a) ** 2 for a in raw))
         init = {b: [(a / nrm).real, (a / nrm).imag] for b, a in zip(sorted(strs), raw)}
-    names = ["occupation", "correlation_matrix", "energy", "energy_variance"]
+    names = ["occupation", "correlation_matrix", "energy", "energy_variance"] + ([] if xy else ["bitstrings"])
     r = rng.random()
-    if r < 0.3:
+    if r < 0.15 and not xy:
+        obs = ["correlation_matrix", "bitstrings"] + rng.sample(["occupation", "energy"], rng.randint(0, 2))
+    elif r < 0.3:
         obs = ["correlation_matrix", "occupation"] + rng.sample(["energy", "energy_variance"], rng.randint(0, 2))
     elif r < 0.45:
         obs = ["occupation", "energy"]
     else:
-        obs = rng.sample(names, rng.randint(1, 4))
+        obs = rng.sample(names, rng.randint(1, len(names)))
     return dict(n=n, ns=ns, times=times, x=x, xy=xy, U=U, masked=masked, slm=slm, om=om, de=de, ph=ph, dt=dt,
                 relabel=relabel, init=init, obs=obs, mixed=mixed)
 
@@ -402,15 +406,27 @@ def dense_check(c, precision=1e-5):
     init = c.get("init")
     amps1 = {b: complex(*a) for b, a in init.items()} if init else None
     psi0 = expected_dense(c["n"], amps1).numpy() if init else None
-    rocc, ren, rcm, rvar = dense_reference(c["om"], c["de"], c["ph"], Ufun, c["times"], c["xy"], psi0)
+    rocc, ren, rcm, rvar, rprob = dense_reference(c["om"], c["de"], c["ph"], Ufun, c["times"], c["xy"], psi0)
     tol_o, tol_e = dense_tolerance(c, precision)
     # which observables are requested, and in which ORDER (callbacks at one time share the normalised state copy, so
     # the order is part of the input): default = the two the oracle always had
     order = c.get("obs") or ["occupation", "energy"]
-    from pulser.backend import CorrelationMatrix, EnergyVariance
+    from pulser.backend import CorrelationMatrix, EnergyVariance, BitStrings
     mk = {"occupation": Occupation, "energy": Energy, "correlation_matrix": CorrelationMatrix, "energy_variance": EnergyVariance}
     scale = tol_e / tol_o
-    tols = {"occupation": tol_o, "correlation_matrix": tol_o, "energy": tol_e, "energy_variance": 3 * scale * tol_e}
+    # bit strings: SHOTS samples at every third grid time and the last; total-variation distance to the dense |psi|^2.
+    # E[TV] <= 0.5*sqrt(2^n/SHOTS); TV is 1/SHOTS-Lipschitz in each sample, so P(TV > E + eps) <= exp(-2*SHOTS*eps^2) (McDiarmid):
+    # eps = sqrt(ln(1e7)/(2*SHOTS)) gives a 1e-7 false-alarm probability per comparison; + n*tol_o for the TDVP state error.
+    SHOTS = 4000
+    bs_idx = sorted(set(list(range(0, len(ev), 3)) + [len(ev) - 1]))
+    tol_bs = 0.5 * math.sqrt(2 ** c["n"] / SHOTS) + math.sqrt(math.log(1e7) / (2 * SHOTS)) + c["n"] * tol_o
+    tols = {"occupation": tol_o, "correlation_matrix": tol_o, "energy": tol_e, "energy_variance": 3 * scale * tol_e,
+            "bitstrings": tol_bs}
+
+    def make_obs(o):
+        if o == "bitstrings":
+            return BitStrings(evaluation_times=[ev[i] for i in bs_idx], num_shots=SHOTS)
+        return mk[o](evaluation_times=ev)
     stats = {}
     res_by = {}
     # Two legs of the same physics. Two-site TDVP is only accurate when strongly coupled atoms are neighbouring
@@ -437,7 +453,8 @@ def dense_check(c, precision=1e-5):
             # leg 2: atom i sits at chain position rl[i], so its symbol is the chain string's symbol at rl[i]
             amps = amps1 if not reorder else {"".join(b[a] for a in rl): v for b, v in amps1.items()}
             extra["initial_state"] = MPS.from_state_amplitudes(eigenstates=("r", "g"), amplitudes=amps)
-        cfg = compat.mps_config(observables=[mk[o](evaluation_times=ev) for o in order],
+        torch.manual_seed(20260922 + int(reorder))          # fixed sampling seed: the verdict is reproducible
+        cfg = compat.mps_config(observables=[make_obs(o) for o in order],
                                 optimize_qubit_ordering=reorder, dt=c["dt"], precision=precision, **extra)
         try:
             import contextlib
@@ -455,6 +472,23 @@ def dense_check(c, precision=1e-5):
             stats["perm_self_inverse"] = [p.index(a) for a in range(len(p))] == p
         errs = {}
         for o in order:
+            if o == "bitstrings":
+                want_t = [ev[i] for i in bs_idx]
+                if [round(t, 12) for t in res.get_result_times(o)] != [round(t, 12) for t in want_t]:
+                    return f"bitstrings recorded at {res.get_result_times(o)!r}, due at {want_t!r}", None, stats
+                worst_tv = 0.0
+                for i, counts in zip(bs_idx, res.bitstrings):
+                    tot = sum(counts.values())
+                    if tot != SHOTS:
+                        return f"bitstrings at t={ev[i]!r}: {tot} shots recorded, {SHOTS} requested", None, stats
+                    emp = np.zeros(2 ** c["n"])
+                    for key, cnt in counts.items():
+                        # reordered leg: atom a of that register sits at chain position rl[a]
+                        chain = list(key) if not reorder else [key[rl.index(p)] for p in range(c["n"])]
+                        emp[int("".join(chain), 2)] += cnt / tot
+                    worst_tv = max(worst_tv, 0.5 * float(np.abs(emp - rprob[i]).sum()))
+                errs[o] = worst_tv
+                continue
             if [round(t, 12) for t in res.get_result_times(o)] != [round(t, 12) for t in ev]:
                 return f"{o} recorded at {res.get_result_times(o)!r}, due at {ev!r}", None, stats
             got = np.array([np.real(v.numpy() if hasattr(v, "numpy") else np.asarray(v)) for v in getattr(res, o)], dtype=float)
@@ -668,7 +702,10 @@ def check(rep: Report, tier: str, seed: int) -> None:
     t0 = time.time()
     for di in range(ndense):
         c = gen_dense(rng, 5 if quick else 6, force_cycle=(di % 6 == 0), force_mixed=(di % 4 == 2),
-                      force_slm=(di % 6 == 3))
+                      force_slm=(di % 6 == 3), force_ryd=(di % 6 == 4))
+        if di % 6 == 4 and not c["xy"]:
+            # always present: bit strings sampled right after the correlation callback (shared state copy centred on the last site)
+            c["obs"] = ["correlation_matrix", "bitstrings"]
         if di % 4 == 1 and c["obs"][:2] != ["correlation_matrix", "occupation"]:
             # always present: the correlation callback first (it leaves the shared state copy centred on the last site)
             c["obs"] = ["correlation_matrix", "occupation"] + [o for o in c["obs"] if o in ("energy", "energy_variance")]
